@@ -111,7 +111,7 @@ def f13_predicate(A, y, kappa):
       ill_conditioned  eps*kappa^2 exceeds the backward-stable bound c*max(m,n)*eps
       abs_tolerance    tol_abs exceeds the relative gradient tolerance of some column, or is not
                        negligible against the natural coefficient scale |y| / max|a_j|
-      huge_scale       eps * max|A^T y| exceeds tol_abs (gradient noise above the absolute tolerance:
+      huge_scale       eps * max(|A^T y|, max|a_j| |y|) exceeds tol_abs (rounding noise of the gradient above the absolute tolerance:
                        'Maximum number of iterations reached' for some memory layouts)"""
     A = np.asarray(A, dtype=float)
     y = np.asarray(y, dtype=float)
@@ -126,7 +126,7 @@ def f13_predicate(A, y, kappa):
         "ill_conditioned": bool(kappa * kappa >= T.C * mm),
         "abs_tolerance": bool(tol_abs > tj.min() or tol_abs >= 1e-3 * ny / max(coln.max(), 1e-300)),
         # rounding noise eps * |A^T y| of the gradient exceeds the absolute tolerance: termination is a matter of luck
-        "huge_scale": bool(T.EPS * g > tol_abs),
+        "huge_scale": bool(T.EPS * max(g, float(coln.max()) * ny) > tol_abs),
     }
 
 
